@@ -865,3 +865,13 @@ def main(ctx):
 
     call_sequences(ctx, "call-sequences", seq_pool, SEQ_CALLS, seq_run, lambda: [integrate.util], depth=ctx.pick(3, 4),
                    nodedup_depth=3, result_edits=True)
+
+    # ------------------------------------------------------------ many distinct calls on one object, then each again
+    from mc.worlds import revisit
+    revisit(ctx, "revisit-after-many-distinct-calls", {
+        "gauleg(44 rules)": (lambda: None, [("gauleg", -1.0 - 0.1 * k, 2.0 + 0.3 * k, 1 + k) for k in range(44)], lambda o, c: list(gauleg(c[1], c[2], c[3]))),
+        "one QGauss, 44 point counts": (lambda: QGauss(5), [("npts", 1 + k) for k in range(44)], lambda q, c: [np.asarray(q.integrate([0.0, 2.0], FUNCS["exp"], npts=c[1]))]),
+        "one QGauss, 44 ranges": (lambda: QGauss(9), [("range", -1.0 + 0.05 * k, 1.0 + 0.1 * k) for k in range(44)], lambda q, c: [np.asarray(q.integrate([c[1], c[2]], FUNCS["runge"]))]),
+        "one QGauss2, 44 ranges": (lambda: QGauss2(4, 5), [("range", -1.0 + 0.05 * k, 1.0 + 0.1 * k) for k in range(44)],
+                                   lambda q, c: [np.asarray(q.integrate_func([c[1], c[2]], [c[2], c[1] + 5.0], F2["x2y3"]))]),
+    })
